@@ -50,7 +50,8 @@ CLAIM = dict(
          "render_eq_expected incl. trimming: trimming the %-message equals trimming the source symbols); new style and old style "
          "agree (styles_agree); old style without variables un-doubles statically (oldstyle_static_undouble); trimming is "
          "idempotent, leaves no outer whitespace and no line break, keeps non-whitespace, maps exactly the runs with a line "
-         "break to one space (trimmed_spec_*); context routes to pgettext/npgettext (context_routing); every call a gettext "
+         "break to one space (trimmed_spec_*); context routes to pgettext/npgettext (context_routing); only variable values are "
+         "escaped (autoescape_vars); %(num)s always resolves under new style (num_injected); every call a gettext "
          "callable receives is covered by extract_from_ast's output for the same node list and options (extraction_complete). "
          "The one excluded shape — old style, variables declared in the tag but none referenced, '%' in the text — is proved to "
          "break the round trip in the model (oldstyle_unreferenced_percent_witness) and reported as a known finding. Tie: the "
@@ -563,8 +564,10 @@ def run_blocks(ctx, res, jinja2, stats, distinct, samples):
             # the model says Python's % rejects (or reinterprets) the format string, yet the block rendered
             res.violate(f"C33:e2e:model:{cfg}", f"{c.src!r} ({cfg}) renders {out!r}; model: format string outside %(name)s/%%",
                         replay, no_input=True)
-    for c in cases[:3] + cases[-3:]:
-        samples.append({"src": c.src, "data": {k: (repr(v) if callable(v) else str(v)) for k, v in c.data.items()}})
+    picked = [c for c in cases if c.block["plural"] and c.block["header"] and "%" in c.src.split("%}", 1)[1]][:2] + cases[-3:]
+    for c in picked:
+        samples.append({"src": c.src, "data": {k: ("<callable>" if callable(v) else str(v)) for k, v in c.data.items()},
+                        "block": core.sx(sx_block(c.block))})
     for c in cases:
         body_txt = "".join(v for k, v in c.block["singular"] if k == "d")
         if "%" in body_txt:
